@@ -542,6 +542,9 @@ type segEntries struct {
 }
 
 func (s segEntries) lastNr() int {
+	if s.startNr < 0 {
+		return -1 // no segment available yet
+	}
 	nrSegs := 0
 	for _, e := range s.entries {
 		nrSegs += int(e.R) + 1
